@@ -63,15 +63,26 @@ func c18Body(salt byte, n int) []byte {
 	return b
 }
 
+func c18PadValue(salt byte, n int) string {
+	b := make([]byte, n)
+	for i := range b {
+		b[i] = 'a' + c18BodyByte(salt, int64(i))%26
+	}
+	return string(b)
+}
+
 func c18BodyByte(salt byte, i int64) byte { return byte(int64(salt) + i*31 + i>>8 + i>>16) }
 
 type c18FlowCase struct {
-	No        int
-	Dir       string // response | request
-	W0        int64
-	MaxFrame  uint32
-	Sizes     []int
-	Salts     []byte
+	No       int
+	Dir      string // response | request
+	W0       int64
+	MaxFrame uint32
+	Sizes    []int
+	Salts    []byte
+	// Pads: length of an extra header value per stream (0: none); > 16 KiB makes MOSN split the header block over
+	// CONTINUATION frames, which the peer's x/net framer must reassemble to the same value
+	Pads      []int
 	UseStream bool
 	Stagger   bool
 	// Script "random": the generated release script. "settings-release": the connection window is opened, MOSN uses up
@@ -113,24 +124,24 @@ type c18Peer struct {
 	henc *xhpack.Encoder
 	hbuf bytes.Buffer
 
-	mu                                                     sync.Mutex
-	cond                                                   *sync.Cond
-	connAllow                                              int64
-	connRecv                                               int64
-	wCur                                                   int64
-	wPend                                                  int64 // -1: no SETTINGS change awaiting its ACK
-	fCur                                                   uint32
-	fPend                                                  uint32
-	acks                                                   int
-	pingAcks                                               int
-	streams                                                []*c18PStream // by idx
-	byID                                                   map[uint32]*c18PStream
-	dead                                                   error
-	goaway                                                 bool
-	closing                                                bool
-	log                                                    []string
-	violated                                               bool
-	dataFrames, updates, settingsChanges, drains, negative int64
+	mu                                                                  sync.Mutex
+	cond                                                                *sync.Cond
+	connAllow                                                           int64
+	connRecv                                                            int64
+	wCur                                                                int64
+	wPend                                                               int64 // -1: no SETTINGS change awaiting its ACK
+	fCur                                                                uint32
+	fPend                                                               uint32
+	acks                                                                int
+	pingAcks                                                            int
+	streams                                                             []*c18PStream // by idx
+	byID                                                                map[uint32]*c18PStream
+	dead                                                                error
+	goaway                                                              bool
+	closing                                                             bool
+	log                                                                 []string
+	violated                                                            bool
+	dataFrames, updates, settingsChanges, drains, negative, padsChecked int64
 }
 
 func (p *c18Peer) logf(format string, a ...interface{}) { // callers hold mu
@@ -273,6 +284,7 @@ func (p *c18Peer) onHeaders(f *xh2.MetaHeadersFrame) {
 		st.gotHeaders = true
 		st.status = f.PseudoValue("status")
 		p.logf("HEADERS stream=%d status=%s end=%v", f.StreamID, st.status, f.StreamEnded())
+		p.checkPad(st, f)
 		if f.StreamEnded() {
 			st.ended = true
 		}
@@ -294,11 +306,41 @@ func (p *c18Peer) onHeaders(f *xh2.MetaHeadersFrame) {
 	st.id, st.known, st.gotHeaders = f.StreamID, true, true
 	p.byID[st.id] = st
 	p.logf("request HEADERS stream=%d idx=%d end=%v", st.id, idx, f.StreamEnded())
+	p.checkPad(st, f)
 	if f.StreamEnded() {
 		st.ended = true
 		go p.respond(st.id)
 	}
 	p.cond.Broadcast()
+}
+
+// checkPad: the long header value written by MOSN's encoder and framer (HEADERS + CONTINUATION) as read by x/net.
+func (p *c18Peer) checkPad(st *c18PStream, f *xh2.MetaHeadersFrame) { // callers hold mu
+	n := p.cs.Pads[st.idx]
+	if n == 0 {
+		return
+	}
+	got, seen := "", 0
+	for _, hf := range f.Fields {
+		if hf.Name == "x-pad" {
+			got = hf.Value
+			seen++
+		}
+	}
+	p.padsChecked++
+	if want := c18PadValue(st.salt, n); seen != 1 || got != want {
+		p.violate("header-corrupt", fmt.Sprintf("stream %d: header x-pad (%d bytes, sent by MOSN in a block of more than one frame when > 16 KiB) read by x/net %d times with %d bytes; first difference at %d",
+			st.id, n, seen, len(got), c18FirstDiff(got, want)))
+	}
+}
+
+func c18FirstDiff(a, b string) int {
+	for i := 0; i < len(a) && i < len(b); i++ {
+		if a[i] != b[i] {
+			return i
+		}
+	}
+	return c18Min(len(a), len(b))
 }
 
 func (p *c18Peer) respond(id uint32) {
@@ -878,11 +920,14 @@ func (r *c18SrvRecv) OnReceive(ctx context.Context, headers api.HeaderMap, data 
 	if err != nil || idx < 0 || idx >= len(r.cs.Sizes) {
 		return
 	}
-	size, salt := r.cs.Sizes[idx], r.cs.Salts[idx]
+	size, salt, pad := r.cs.Sizes[idx], r.cs.Salts[idx], r.cs.Pads[idx]
 	// like the proxy: the response is produced on another goroutine than the connection's read loop
 	go func() {
 		defer c18RecoverSender(r.cs, fmt.Sprintf("response idx=%d", idx))
 		rsp := &http.Response{StatusCode: 200, Header: http.Header{"X-Idx": []string{v}, "Content-Type": []string{"application/octet-stream"}}}
+		if pad > 0 {
+			rsp.Header["X-Pad"] = []string{c18PadValue(salt, pad)}
+		}
 		hdr := mhttp2.NewRspHeader(rsp)
 		if r.cs.UseStream {
 			_ = variable.Set(ctx, types.VarHttp2ResponseUseStream, true)
@@ -1085,6 +1130,9 @@ func c18RunFlowCase(c *lab.Ctx, cs0 *c18FlowCase, rng *lab.Rand) (verdict string
 			if cs.UseStream {
 				req.ContentLength = -1
 			}
+			if cs.Pads[i] > 0 {
+				req.Header["X-Pad"] = []string{c18PadValue(cs.Salts[i], cs.Pads[i])}
+			}
 			hdr := mhttp2.NewReqHeader(req)
 			if size == 0 && i%2 == 0 {
 				req.Method = "GET"
@@ -1150,12 +1198,13 @@ func c18Flow(c *lab.Ctx) {
 		"A stall is a verdict only in this form, 3 of 3 runs: PING acknowledged (all frames processed), windows open, not one DATA frame for " +
 		"the stall watchdog, progress only after an unneeded 1-byte connection WINDOW_UPDATE; any other watchdog firing is inconclusive. The ledger is " +
 		"updated before every WINDOW_UPDATE is written. distinct = (direction, window class, frame size, #streams class, body classes, " +
-		"stream mode, settings changes, negative window seen)")
-	n := c.Pick(500, 4000)
+		"stream mode, settings changes, negative window seen). One stream in eight also carries a header value of up to 60000 bytes, which MOSN " +
+		"must split over CONTINUATION frames and the peer's x/net framer must read back unchanged.")
+	n := c.Pick(500, 3000)
 	maxBody := c.Pick(1<<20, 4<<20)
 	replay := c.ReplayCase()
 	var mu sync.Mutex
-	var okCases, inconcl, dataFrames, updates, changes, drains, negative, bytesTotal int64
+	var okCases, inconcl, dataFrames, updates, changes, drains, negative, bytesTotal, pads int64
 	byDir := map[string]int64{}
 	workers := 16
 	confirmed := 0 // stall verdicts confirmed 3 of 3 in this run
@@ -1177,6 +1226,12 @@ func c18Flow(c *lab.Ctx) {
 			ns := rng.PickInt(1, 1, 2, 3, 4, rng.Range(5, 8), rng.Range(9, 16))
 			cs.Sizes = c18FlowSizes(rng, ns, maxBody)
 			cs.Salts = rng.Bytes(ns)
+			cs.Pads = make([]int, ns)
+			for k := range cs.Pads {
+				if rng.Chance(1, 8) {
+					cs.Pads[k] = rng.PickInt(1, 1000, 16000, 16384, 20000, 33000, 50000, rng.Range(1, 60000))
+				}
+			}
 			cs.UseStream = rng.Chance(1, 4)
 			cs.Stagger = rng.Chance(1, 3)
 			cs.Script = "random"
@@ -1244,6 +1299,7 @@ func c18Flow(c *lab.Ctx) {
 				drains += p.drains
 				negative += p.negative
 				bytesTotal += p.connRecv
+				pads += p.padsChecked
 				neg := p.negative > 0
 				ch := p.settingsChanges
 				if verdict == "closed" && !p.violated {
@@ -1309,6 +1365,7 @@ func c18Flow(c *lab.Ctx) {
 	c.Count("initial-window-changes", changes)
 	c.Count("negative-window-situations", negative)
 	c.Count("drain-waits", drains)
+	c.Count("long-header-values-checked", pads)
 	if replay < 0 {
 		mine := int64(0)
 		for i := 0; i < n; i++ {
